@@ -211,7 +211,7 @@ def run(ctx):
 
 REACH = ['__Pyx_PyLong_AddObjC', '__Pyx_PyUnicode_Join', '__Pyx_PyObject_FastCallDict', '__Pyx_ParseKeywords', '__Pyx_Generator_New',
          '__Pyx_GetItemInt_Fast', '__Pyx_PyObject_GetSlice', '__Pyx_PyUnicode_Tailmatch', '__Pyx_Py3MetaclassPrepare', '__Pyx_CyFunction_New',
-         '__Pyx_PyObject_Format', '__Pyx_decompress_string', '__Pyx_PyList_Append', '__Pyx_PyDict_GetItem', '__Pyx_CallUnboundCMethod0']
+         '__Pyx_PyObject_Format', '__Pyx_DecompressString', '__Pyx_PyList_Append', '__Pyx_PyDict_GetItem', '__Pyx_CallUnboundCMethod0']
 
 
 def replay(ctx, case):
